@@ -6,6 +6,7 @@ import (
 	"sync"
 	"testing"
 
+	rn "github.com/Trisia/randomness"
 	"github.com/Trisia/randomness/detect"
 	"pgregory.net/rapid"
 
@@ -27,6 +28,8 @@ type c18Case struct {
 	Tasks  []c18Task `json:"tasks"`
 	Procs  int       `json:"gomaxprocs"`
 }
+
+var scribbleSalt int
 
 type c18Result struct {
 	v   []vals
@@ -148,6 +151,21 @@ func checkC18(c c18Case) (Outcome, error) {
 	}
 	if err := untouched("after solitary calls"); err != nil {
 		return out, err
+	}
+	// whatever the library returned belongs to the caller: overwrite the expansions it handed out (with a pattern that
+	// changes from case to case), then call again
+	scribbleSalt++
+	for i := range data {
+		e := rn.B2bitArr(data[i])
+		for j := range e {
+			e[j] = (j+scribbleSalt)%3 == 0
+		}
+		for _, v := range data[i][:min(len(data[i]), 64)] {
+			b := rn.B2bit(v)
+			for j := range b {
+				b[j] = (j+scribbleSalt)%3 == 0
+			}
+		}
 	}
 	// determinism: a second solitary call
 	for i, tk := range c.Tasks {
